@@ -271,6 +271,8 @@ func safeRun(run RunFunc, c Case, st *Stats) (err error) {
 			panic(r) // harness bugs must be loud
 		}
 	}()
+	setClock(0) // every case starts on the wall clock; a clocked case sets its virtual time in its first step
+	defer setClock(0)
 	return run(c, st)
 }
 
